@@ -3,7 +3,7 @@
    Vocabulary: Model.v (the executable model), Spec.v (trees, spec_top, denotes,
    seq_log). *)
 From Coq Require Import ZArith.
-From XV Require Import lib.Bytes lib.Lts gen.SessOut C05.Model C05.Spec C05.Proofs.
+From XV Require Import lib.Bytes lib.Lts gen.SessOut C05.Model C05.Spec C05.Proofs C05.Scoping.
 Open Scope Z_scope.
 
 (* Element layer. Writing the tokens of a well-formed element at the top level
@@ -183,3 +183,58 @@ Theorem C05_sendx_touches_only_the_id : forall a newid,
   (newid <> [] -> has_nonempty s_id (fill_id a newid) = true).
 Proof. intros a newid. split; [apply fill_id_others|apply fill_id_has_id]. Qed.
 Print Assumptions C05_sendx_touches_only_the_id.
+
+(* Marshaled values. Encode / EncodeElement re-read encoding/xml's text as raw
+   tokens, whose attribute names carry prefixes; [resolve_raw] is the binding
+   stack of rawTokenReader (push on start, pop on end, innermost match). Over
+   the tokens of EVERY raw forest - any nesting, any re-use of a prefix on
+   siblings, any shadowing in nested elements, declarations before or after
+   their use - it yields exactly the tokens of [scoped_tree]: every attribute
+   gets the name space of the nearest enclosing declaration of its prefix, a
+   declaration never reaches a sibling or anything after its element, xml: is
+   the XML name space, element names, unprefixed attributes, text and the
+   shape of the forest are untouched, the declarations themselves disappear. *)
+Theorem C05_prefix_scoping : forall f,
+  resolve_raw 0 [] (forest_tokens f) = forest_tokens (map (scoped_tree []) f).
+Proof. exact prefix_scoping. Qed.
+Print Assumptions C05_prefix_scoping.
+
+(* Element names. The full meaning of a raw forest also resolves prefixed
+   element names ([meaning_tree]); rawTokenReader does not. Full statement: *)
+Definition C05_marshaled_meaning_statement : Prop := forall f,
+  resolve_raw 0 [] (forest_tokens f) = forest_tokens (map (meaning_tree []) f).
+
+(* It holds for every forest whose element names carry no prefix - everything
+   encoding/xml writes by itself ... *)
+Theorem C05_marshaled_meaning_partial : forall f,
+  Forall unprefixed_elems f ->
+  resolve_raw 0 [] (forest_tokens f) = forest_tokens (map (meaning_tree []) f).
+Proof. exact full_meaning_partial. Qed.
+Print Assumptions C05_marshaled_meaning_partial.
+
+(* ... and fails for text copied from an ",innerxml" field that uses prefixed
+   element names: <p:a xmlns:p="urn:1"/> is sent as an element named a in the
+   name space "p" (known finding). *)
+Theorem C05_marshaled_meaning_refuted : ~ C05_marshaled_meaning_statement.
+Proof. exact full_meaning_refuted. Qed.
+Print Assumptions C05_marshaled_meaning_refuted.
+
+(* Hence a marshaled value whose raw view is the element rt denotes what rt
+   means, through Encode and (under the supplied start) through EncodeElement;
+   with C05_call_writes_its_element that element is what reaches the encoder. *)
+Theorem C05_marshaled_value_denotes_its_meaning : forall n a kids,
+  let rt := Elem n a kids in
+  denotes (CEncode (VStruct (tokens_of rt) false)) (scoped_tree [] rt) 1 /\
+  forall sn sa, denotes (CEncodeElement (VStruct (tokens_of rt) false) sn sa)
+                        (Elem sn (merged_attrs sa (top_attrs_of (scoped_tree [] rt))) (kids_of (scoped_tree [] rt))) 1.
+Proof. exact struct_denotes_scoped. Qed.
+Print Assumptions C05_marshaled_value_denotes_its_meaning.
+
+(* The stack discipline facts [resolve_raw] mirrors, read from encode.go on
+   every run (a reordering of pop and decrement, another comparison or another
+   lookup direction breaks this proof). *)
+Theorem C05_raw_reader_tables :
+  so_raw_push_after_inc = true /\ so_raw_lookup_innermost = true /\
+  so_raw_pop_before_dec = true /\ so_raw_pop_cmp = str ">=" /\ so_raw_pop_rhs_is_depth = true.
+Proof. exact raw_reader_tables. Qed.
+Print Assumptions C05_raw_reader_tables.
